@@ -174,7 +174,8 @@ class Assign:
             if not self.missing:
                 raise
 
-            remaining_path = self._orig_path[pae.part_idx + 1:]
+            # the rest of the path applies to the object being built, not to the scope
+            remaining_path = self._orig_path.from_t()[pae.part_idx + 1:]
             val = scope[glom](self.missing(), Assign(remaining_path, val, missing=self.missing), scope)
 
             op, arg = self._orig_path.items()[pae.part_idx]
